@@ -51,7 +51,7 @@ def one_step(spec):
     after = dict(x=np.array(t.position), v=np.array(t.velocity), rho=np.array(t.rho),
                  H1=np.array(t.electronics.hamiltonian()), d1=np.array(t.electronics.derivative_coupling_tensor()),
                  F1=np.array(t.electronics.force(t.state)), last_v=np.array(t.last_velocity))
-    W, w, C = ec.first_eigh(cap, "propagate_electronics")
+    W, w, C = ec.first_eigh(cap, "propagate_electronics", W=(None if cap.calls else t.hamiltonian_propagator(last, t.electronics)))
     return before, after, W, w, C, np.array(model.mass), cap
 
 
